@@ -284,7 +284,9 @@ class WeakForms(_Simu):
 
         # end cases ----------------------------------------------------
 
-        return self.Results_Reshape_values(values, nodeValues)
+        # flat nodal vectors (Nn * dof_n,) cannot be told from element values when Nn * dof_n == Ne
+        storedOnNodes = True if result in ["u", "v", "a"] else None
+        return self.Results_Reshape_values(values, nodeValues, storedOnNodes)
 
     def Results_Iter_Summary(
         self,
